@@ -249,6 +249,43 @@ func cellBoundaryShapes(c *collection, rng *vkit.Rng) {
 	}
 }
 
+// cellCentreShapes: a triangle with one vertex exactly at the centre of a cell (levels 2..28, any
+// face) and the other two at the centres of two adjacent children, so that shrink-to-fit makes that
+// cell the index cell: the vertex is then the start point of the query's crossing segment. Also
+// a polyline through the centres and an edge passing (to within rounding) through the centre.
+func cellCentreShapes(c *collection, rng *vkit.Rng) {
+	level := 2 + rng.Intn(27)
+	face := rng.Intn(6)
+	id := s2.CellFromPoint(faceCentre(rng, face)).ID().Parent(level)
+	kids := id.Children()
+	a := id.Point()
+	k := rng.Intn(4)
+	b, d := kids[k].Point(), kids[(k+1)%4].Point()
+	verts := []s2.Point{a, b, d}
+	if !s2.Sign(a, b, d) {
+		verts = []s2.Point{a, d, b}
+	}
+	desc := map[string]interface{}{"type": "triangle with a vertex at a cell centre", "cell": fmt.Sprintf("%x", uint64(id)), "level": level, "face": face}
+	switch rng.Intn(3) {
+	case 0:
+		c.add(s2.LaxPolygonFromPoints([][]s2.Point{verts}), "LaxPolygon", true, desc)
+	case 1:
+		c.add(s2.PolygonFromLoops([]*s2.Loop{s2.LoopFromPoints(verts)}), "Polygon", true, desc)
+	default:
+		c.add(s2.LaxLoopFromPoints(verts), "LaxLoop", true, desc)
+	}
+	switch rng.Intn(3) {
+	case 0: // a polyline from a child centre to the cell centre and on to another child centre
+		c.add(s2.LaxPolylineFromPoints([]s2.Point{b, a, kids[(k+2)%4].Point()}), "LaxPolyline", true, desc)
+	case 1: // an edge whose interior passes through the cell centre (up to rounding)
+		dir := randPoint(rng).Mul(0.2 * s2.AvgEdgeMetric.Value(level))
+		c.add(s2.LaxPolylineFromPoints([]s2.Point{{Vector: a.Add(dir).Normalize()}, {Vector: a.Sub(dir).Normalize()}}), "LaxPolyline", true, desc)
+	default: // points at the centres
+		pv := s2.PointVector{a, kids[(k+3)%4].Point()}
+		c.add(&pv, "PointVector", true, desc)
+	}
+}
+
 // multiFaceShapes: edges spanning 3-4 cube faces.
 func multiFaceShapes(c *collection, rng *vkit.Rng) {
 	ll := func(lat, lng float64) s2.Point { return s2.PointFromLatLng(s2.LatLngFromDegrees(lat, lng)) }
@@ -297,6 +334,11 @@ func genCollection(rng *vkit.Rng, kind int) *collection {
 		c.kind = "multi-face"
 		multiFaceShapes(c, rng)
 		addRandomShape(c, rng, pickCenter(rng), pickRadius(rng), 64)
+	case 6: // vertices exactly at cell centres, small enough that the index cell is that cell
+		c.kind = "vertex at cell centre"
+		for i, n := 0, 2+rng.Intn(4); i < n; i++ {
+			cellCentreShapes(c, rng)
+		}
 	case 5: // about 10^4 edges (thorough and search tiers)
 		c.kind = "huge"
 		center := pickCenter(rng)
@@ -500,8 +542,37 @@ func queryPoints(rng *vkit.Rng, col *collection, cells []s2.VerifCell, n int) (p
 var models = []s2.VertexModel{s2.VertexModelOpen, s2.VertexModelSemiOpen, s2.VertexModelClosed}
 var modelName = map[s2.VertexModel]string{s2.VertexModelOpen: "Open", s2.VertexModelSemiOpen: "SemiOpen", s2.VertexModelClosed: "Closed"}
 
+// vertexAtCentreTotal counts (index cell, vertex) coincidences met by the queries of a run.
+var vertexAtCentreTotal int
+
 func checkContainsQueries(c *vkit.Collector, rng *vkit.Rng, col *collection, cells []s2.VerifCell, n int) {
 	pts, _ := queryPoints(rng, col, cells, n)
+	// the centres of ALL index cells (the start point of the query's crossing segment: a degenerate
+	// segment) and ALL vertices, when the collection is small enough
+	vertexAtCentre := 0
+	if len(cells) <= 400 {
+		for _, cell := range cells {
+			ctr := cell.ID.Point()
+			pts = append(pts, ctr)
+			for _, sh := range col.shapes {
+				if !sh.removed && sh.vertices[ctr] {
+					vertexAtCentre++
+					break
+				}
+			}
+		}
+	}
+	if col.numEdges() <= 400 {
+		for _, sh := range col.shapes {
+			for _, e := range sh.edges {
+				pts = append(pts, e.V0, e.V1)
+			}
+		}
+	}
+	if vertexAtCentre > 0 {
+		c.Class("index: has a vertex that is the centre of its index cell")
+		vertexAtCentreTotal += vertexAtCentre
+	}
 	for _, model := range models {
 		q := s2.NewContainsPointQuery(col.index, model)
 		for _, p := range pts {
@@ -1042,6 +1113,18 @@ func correspondIndex(c *vkit.Collector, rng *vkit.Rng, col *collection, cells []
 		terms = append(terms, fmt.Sprintf("((range_min %d =? %d) && (range_max %d =? %d))", uint64(cell.ID), uint64(cell.ID.RangeMin()), uint64(cell.ID), uint64(cell.ID.RangeMax())))
 	}
 	pts, _ := queryPoints(rng, col, cells, n)
+	// first the index-cell centres that are vertices (query point = start of the crossing segment)
+	var front []s2.Point
+	for _, cell := range cells {
+		ctr := cell.ID.Point()
+		for _, sh := range col.shapes {
+			if !sh.removed && sh.vertices[ctr] {
+				front = append(front, ctr)
+				break
+			}
+		}
+	}
+	pts = append(front, pts...)
 	for _, p := range pts {
 		target := s2.CellFromPoint(p).ID()
 		want := "None"
@@ -1195,7 +1278,7 @@ func correspondIndex(c *vkit.Collector, rng *vkit.Rng, col *collection, cells []
 }
 
 func runIndex(c *vkit.Collector, rng *vkit.Rng, budget int) {
-	kinds := []int{0, 1, 2, 0, 3, 2, 1, 4, 0, 2, 1, 3, 0, 2, 1, 0}
+	kinds := []int{0, 1, 2, 6, 3, 2, 1, 4, 0, 6, 1, 3, 0, 2, 6, 0}
 	nCollections := 80 * budget
 	tBudget = 6 * budget
 	okBudget = 12 * budget
@@ -1214,6 +1297,7 @@ func runIndex(c *vkit.Collector, rng *vkit.Rng, budget int) {
 		runLifecycle(c, rng, it, &maxEdges, &maxCells)
 	}
 	checkRegionsSafely(c, rng, budget)
+	c.Extra["index_cells_whose_centre_is_a_vertex"] = vertexAtCentreTotal
 	c.Extra["index_max_edges"] = maxEdges
 	c.Extra["index_max_cells"] = maxCells
 }
